@@ -40,7 +40,8 @@ def run(tier):
         for w0 in range(len(h.WS_COMPS)):
             for wabs in (0, 1, 2, 3):
                 for i0 in range(nin):
-                    slices.append(dict(fix=dict(w0=[w0], wabs=[wabs], i0=[i0], stale=[0, 1], force=[0, 1])))
+                    slices.append(dict(fix=dict(w0=[w0], wabs=[wabs], i0=[i0], w1=[h.ABSENT, 0, 2, 4, 6], i1=[h.ABSENT, 0, 3, 5],
+                                                stale=[0, 1], force=[0, 1])))
         # incremental mode and workspaces whose own src / bak are out-pointing links: one- and two-component options, every first input
         for w0 in range(len(h.WS_COMPS)):
             for i0 in range(nin):
